@@ -25,6 +25,7 @@ type Val struct {
 	Clo   *Closure  // statically known function value
 	Loc   *Loc      // structurally known address (pointer values)
 	Fn    *ssa.Function
+	Dyn   types.Type // statically known dynamic type of an interface value
 }
 
 type Closure struct {
@@ -133,6 +134,8 @@ type FnCtx struct {
 	maxDepth   int
 	callSeq    int
 	unrollLeft map[*ssa.BasicBlock]int
+	nonNil     map[string]bool
+	ranges     map[string]*rangeState
 }
 
 func (c *FnCtx) unsupported(format string, a ...any) {
@@ -141,9 +144,10 @@ func (c *FnCtx) unsupported(format string, a ...any) {
 
 // ---------- heap components ----------
 
-func (c *FnCtx) comp(name, sort string) string {
+func (c *FnCtx) comp(name, sort string, deps ...types.Type) string {
 	if _, ok := c.eng.comps[name]; !ok {
 		c.eng.comps[name] = sort
+		c.eng.compDeps[name] = deps
 		c.eng.compOrder = append(c.eng.compOrder, name)
 		c.newComps = true
 	}
@@ -173,29 +177,35 @@ func fieldComp(structT types.Type, field int) string {
 
 func (c *FnCtx) fieldHeap(structT types.Type, field int) string {
 	st := structT.Underlying().(*types.Struct)
-	return c.comp(fieldComp(structT, field), "(Array Int "+c.ty.SortOf(st.Field(field).Type())+")")
+	n := c.comp(fieldComp(structT, field), "(Array Int "+c.ty.SortOf(st.Field(field).Type())+")", st.Field(field).Type())
+	c.eng.compElem[n] = st.Field(field).Type()
+	return n
 }
 
 func (c *FnCtx) cellHeap(t types.Type) string {
-	return c.comp("H$cell$"+shortTypeName(t), "(Array Int "+c.ty.SortOf(t)+")")
+	n := c.comp("H$cell$"+shortTypeName(t), "(Array Int "+c.ty.SortOf(t)+")", t)
+	c.eng.compElem[n] = t
+	return n
 }
 
 func (c *FnCtx) elemHeap(t types.Type) string {
-	return c.comp("E$"+shortTypeName(t), "(Array Int (Array Int "+c.ty.SortOf(t)+"))")
+	n := c.comp("E$"+shortTypeName(t), "(Array Int (Array Int "+c.ty.SortOf(t)+"))", t)
+	c.eng.compElem[n] = t
+	return n
 }
 
 func (c *FnCtx) mapHeaps(m *types.Map) (has, val, ln string) {
 	k := shortTypeName(m.Key()) + "$" + shortTypeName(m.Elem())
 	ks, vs := c.ty.SortOf(m.Key()), c.ty.SortOf(m.Elem())
-	has = c.comp("M$"+k+"$has", "(Array Int (Array "+ks+" Bool))")
-	val = c.comp("M$"+k+"$val", "(Array Int (Array "+ks+" "+vs+"))")
+	has = c.comp("M$"+k+"$has", "(Array Int (Array "+ks+" Bool))", m.Key())
+	val = c.comp("M$"+k+"$val", "(Array Int (Array "+ks+" "+vs+"))", m.Key(), m.Elem())
 	ln = c.comp("M$"+k+"$len", "(Array Int Int)")
 	return
 }
 
 func (c *FnCtx) globalComp(g *ssa.Global) string {
 	t := g.Type().(*types.Pointer).Elem()
-	return c.comp("G$"+g.Pkg.Pkg.Name()+"."+g.Name(), c.ty.SortOf(t))
+	return c.comp("G$"+g.Pkg.Pkg.Name()+"."+g.Name(), c.ty.SortOf(t), t)
 }
 
 // faddr: address of a struct-typed field embedded by value in another struct object.
@@ -203,7 +213,7 @@ func (c *FnCtx) faddr(structT types.Type, field int, ref string) string {
 	st := structT.Underlying().(*types.Struct)
 	fn := q("faddr$" + shortTypeName(structT) + "$" + st.Field(field).Name())
 	inv := q("faddr-inv$" + shortTypeName(structT) + "$" + st.Field(field).Name())
-	c.sc.Decl("faddr:"+fn, fmt.Sprintf("(declare-fun %s (Int) Int)\n(declare-fun %s (Int) Int)\n(assert (forall ((r Int)) (! (and (= (%s (%s r)) r) (=> (> r 0) (> (%s r) 0))) :pattern ((%s r)))))", fn, inv, inv, fn, fn, fn))
+	c.sc.Decl("faddr:"+fn, fmt.Sprintf("(declare-fun %s (Int) Int)\n(declare-fun %s (Int) Int)\n(assert (forall ((r Int)) (! (and (= (%s (%s r)) r) (=> (> r 0) (> (%s r) 0)) (= (< r |alloc0|) (< (%s r) |alloc0|))) :pattern ((%s r)))))", fn, inv, inv, fn, fn, fn, fn))
 	return App(fn, ref)
 }
 
@@ -244,8 +254,10 @@ func (c *FnCtx) fresh(hint string, t types.Type, st *State) Val {
 	if inv := c.ty.Inv(t, n); inv != "true" {
 		c.sc.Assume(inv)
 	}
-	if isRefType(t) && st != nil {
-		c.sc.Assume("(< " + n + " " + st.alloc + ")")
+	if st != nil {
+		if rb := c.refBound(t, n, st); rb != "true" {
+			c.sc.Assume(rb)
+		}
 	}
 	return Val{T: t, E: n}
 }
@@ -1165,7 +1177,7 @@ func (c *FnCtx) ptrLoc(st *State, p Val, pos token.Pos) *Loc {
 }
 
 func (c *FnCtx) nilCheck(st *State, ref string, pos token.Pos) {
-	if c.eng.nonNil[ref] || strings.HasPrefix(ref, "(|faddr$") {
+	if c.nonNil[ref] || strings.HasPrefix(ref, "(|faddr$") {
 		return
 	}
 	o := c.obligation(st, "safe", "nil", "(not (= "+ref+" 0))", pos)
